@@ -288,7 +288,10 @@ class SimpleDictDocument(DictDocument):
 
                     cinst = ninst
 
-                cfreq_key = cfreq_key + (ncls, nidx)
+                # the member name is part of the identity of a container: two
+                # objects of one class reached through different members are two
+                # containers, each with its own frequencies
+                cfreq_key = cfreq_key + (ncls, (pkey, nidx))
                 idx = nidx
                 ctype_info = ncls.get_flat_type_info(ncls)
 
